@@ -43,10 +43,10 @@ def run(ctx):
     nrand = 300 if quick else 4000
     rc, out = ctx.go_run_test(binary, "^TestVfReceiver$", env={"VF_SCENARIOS": scen, "VF_OUT": trace, "VF_RANDOM": nrand,
                                                                "VERIF_SEED": ctx.seed}, timeout=1500)
-    if rc != 0 and "WARNING: DATA RACE" in out and "/repo/" in out:
-        ctx.violation("C20:datarace", "race detector fired in receiver run:\n" + out[-3000:], replay={"output": out[-20000:]})
-    elif rc != 0:
-        raise vf.Inconclusive("receiver harness failed:\n" + out[-4000:])
+    extra = vf.crash_events(ctx, rc, out, "receiver")
+    if extra:
+        ev0 = vf.read_ndjson(trace) if os.path.exists(trace) else []
+        vf.write_ndjson(trace, ev0 + extra)
     # (T) every recorded run must be a behaviour of the specification
     def key(run, evt):
         return "C20:%s:%s" % (evt.get("ev"), evt.get("o", evt.get("i", "")))
